@@ -56,3 +56,13 @@ Print Assumptions C15_close_reaches_release.
 (* NOT PROVED: the full frame grammar over sequential API call sequences (at most one complete
    per id, nothing after the close frame) -- checked on every run by the oracle over the frames
    the real client wrote, and by the per-step correspondence of [frames]. *)
+
+(* "subscribe frames with fresh unique ids": in every reachable state of every schedule the
+   subscribe frames written so far carry pairwise distinct ids, each the id of a registered
+   subscription *)
+From Verif Require Import Proofs.WsFresh.
+Theorem C15_subscribe_ids_are_fresh :
+  forall s, reachable s ->
+  NoDup (sub_ids (frames s)) /\ forall i, In i (sub_ids (frames s)) -> (i < List.length (subs s))%nat.
+Proof. exact subscribe_ids_are_fresh. Qed.
+Print Assumptions C15_subscribe_ids_are_fresh.
